@@ -7,7 +7,7 @@ var ghostBuiltinNames = []string{
 	"seq", "seqOf", "bytesOf", "cat", "cat3", "cat4", "b1", "u16be", "sub", "slen", "sat", "mkseq", "seqEq", "seq0",
 	"sameSlice", "forallKey", "maxAlloc", "ssnap", "sliceSnap", "ssLen", "ssAt", "msnap", "mapSnap", "guardSnap", "guardVal", "guardSlice", "snapHas", "snapGet", "mapHas", "forall", "forallPairs", "forallGrid", "exists", "fresh", "arrayOf", "sameArray", "ite",
 	"evCount", "evHeld", "evIndex", "evArg", "evSlice", "evBytes", "evRet", "evTotal",
-	"holds", "holdsR", "closed", "ownsChan", "onceDone", "chanCap", "iterFresh", "sameMap", "isNilFunc", "closureIs", "closureVar", "closureVarN", "closureCaptures", "sameFunc", "dynType", "typeIs",
+	"holds", "holdsR", "closed", "ownsChan", "onceDone", "chanCap", "iterFresh", "iterFreshArr", "sameMap", "isNilFunc", "closureIs", "closureVar", "closureVarN", "closureCaptures", "sameFunc", "dynType", "typeIs",
 	"strBytesEq", "runeOK", "validUTF8", "utf8norm", "utf8normOf", "ovfFree", "unchanged", "fnCode", "readyAt",
 	"chainHas", "errChain", "retryOf", "isRetryErr", "ghostTrue", "splitOf", "joinedLen", "hasByte",
 }
@@ -157,6 +157,9 @@ func chanCap[T any](ch chan T) int { return 0 }
 
 // iterFresh(p): (in a loop iter clause) the object p points to was allocated during this iteration.
 func iterFresh[T any](p *T) bool { return true }
+
+// iterFreshArr(s): the backing array of s was allocated during this iteration.
+func iterFreshArr[T any](s []T) bool { return true }
 
 // onceDone(o): the sync.Once has run its function.
 func onceDone(o *sync.Once) bool { return false }
